@@ -80,15 +80,25 @@ def run_checks(base, props, tier, out):
     for prop in props:
         t0 = time.time()
         env = dict(os.environ, VERIF_REPO=base, VERIF_OUT=out, VERIF_TIER=tier)
+        proc = subprocess.Popen([os.path.join(HERE, "check"), prop, "--tier", tier], cwd=HERE, env=env, stdout=subprocess.PIPE,
+                                stderr=subprocess.STDOUT, text=True, start_new_session=True)
         try:
-            r = subprocess.run([os.path.join(HERE, "check"), prop, "--tier", tier], cwd=HERE, env=env,
-                               stdout=subprocess.PIPE, stderr=subprocess.STDOUT, text=True, timeout=CHECK_TIMEOUT_S,
-                               start_new_session=True)
-        except subprocess.TimeoutExpired as e:
-            subprocess.run(["pkill", "-f", f"check {prop} --tier {tier}"])
+            stdout, _ = proc.communicate(timeout=CHECK_TIMEOUT_S)
+        except subprocess.TimeoutExpired:
+            import signal
+            try:
+                os.killpg(proc.pid, signal.SIGKILL)          # the check and all its worker processes
+            except ProcessLookupError:
+                pass
+            proc.wait()
             results[prop] = {"exit": 3, "violations": 0, "wall_s": round(time.time() - t0, 1), "first_bucket": None,
                              "tail": f"check did not finish within {CHECK_TIMEOUT_S} s"}
             continue
+
+        class R:
+            pass
+        r = R()
+        r.stdout, r.returncode = stdout, proc.returncode
         vio = [l for l in r.stdout.splitlines() if l.startswith("VIOLATION")]
         buckets = [l.strip() for l in r.stdout.splitlines() if l.strip().startswith("bucket=")]
         results[prop] = {"exit": r.returncode, "violations": len(vio), "wall_s": round(time.time() - t0, 1),
